@@ -673,6 +673,9 @@ class Models(object):
         return a["path"], [(v["idx"], v["name"]) for v in a["variants"]]
 
     def collect_vec(self, it):
+        r = self._interchanged_vector_sum(it)
+        if r is not None:
+            return r
         if it.op == "eiter":
             items = self.eiter_items(it)
             if all(g is tm.TRUE for g, _ in items):
@@ -684,6 +687,31 @@ class Models(object):
         if v is not None:
             return v
         return mk("collect", it)
+
+    def _interchanged_vector_sum(self, it):
+        """(0..n).map(|i| Σ_{v in L} v.get(i).unwrap_or(0)).collect()  =  the element-wise sum of the vectors of L
+        (the loop-interchanged spelling of `L.fold(zeros, |acc, v| acc + v)`; positions beyond a vector count as zero in
+        both)."""
+        if not (it.op == "map" and _is_range0(it.a[0]) and isinstance(it.a[1], T) and it.a[1].op == "lam"):
+            return None
+        i = tm.fresh("i")
+        b = tm.apply_lam(it.a[1], [i])
+        if b.op == "add" and b.a[0] is tm.ZERO:
+            b = b.a[1]
+        if not (b.op == "sumover" and isinstance(b.a[1], T) and b.a[1].op == "lam"):
+            return None
+        v = tm.fresh("v")
+        e = tm.apply_lam(b.a[1], [v])
+        want = tm.ite(tm.lt(i, self.len_of(None, v)), self.index_value(None, v, i), tm.ZERO)
+        if e is not want or i in tm.free_syms(b.a[0]):
+            return None
+        src = b.a[0]
+        # Σ over `collect(map(S, f))` of its elements = Σ over S of f
+        if src.op == "iter" and src.a[0].op == "collect" and src.a[0].a[0].op == "map":
+            m = src.a[0].a[0]
+            return mk("vsumover", m.a[0], m.a[1])
+        x = tm.fresh("x")
+        return mk("vsumover", src, tm.lam([x], x))
 
     # default values ---------------------------------------------------------------------
     def default_of(self, ev, prog, tid, genv=None):
